@@ -13,12 +13,12 @@ NOTE_PARTIAL = ("the theorems in coq/fs/%s.v are about named mechanisms of the l
                 "proved lemmas + trace-exact correspondence + spec oracle on the implementation")
 
 PROOF_LEVEL = {
-    "C11": "C11_history_model is a theorem about the layer-B model: in any history run with ONE device fault armed at any device-call index, the calls before the one that hits it are unaffected, and that call returns Err (never Ok / fabricated / Panic / OutOfFuel), keeps lock and handle tables (CloseFile consumes its handle), leaves a crash-sound medium with unique names and every non-targeted file intact, and - for calls that never write - a state of the invariant so that the retry is a fault-free call; every handle can be closed afterwards. Proved per operation (step_fault, 26 operations) from lockstep_step (the armed run agrees with the fault-free run up to the armed device call). Several faults per history and arbitrary calls after a fault are covered at run time only: this check injects a fault at every device-call index of every script and random multi-fault sequences, and judges the implementation with the python oracle (error reported, not wedged, retry answers, no duplicate names, bystanders intact)",
-    "C01": "C01_history_model is a theorem about the layer-B model: for any history of API calls (all 26 operations interleaved, any number of files, every outcome) an executable byte-array spec predicts every read/length/offset/eof/seek/flush/close result and ends with the API's view of every file, position by position (writes splice, truncation empties, append starts at the end, one key per write = isolation); step_content proved per operation; D23 (clip at 4 GiB - 1) is encoded in the spec as the crate behaves and recorded as a finding. The run-time oracle replays the byte-array model on the implementation's results",
-    "C02": "C02_drop_is_close (impl Drop for File = a close whose result is discarded: same state, same medium, the flush relation of CloseFile) and C02_history_model / C02_flushed_stays_model / C02_untouched_history_model are theorems about the layer-B model: what a fresh mount of the raw medium shows (disk_view, a function of the raw disk) at the slot of a flushed/closed file is exactly the API's view at the flush - name, attribute, creation time, modification time = rounded clock of the last write, bytes - until a later call modifies that file; untouched files and untouched raw directory slots are unchanged through any history. Recorded findings: D24 (zero creation-date fields re-encoded) and D29 (0xE5 names). The run-time oracle re-reads the implementation's medium with an independent FAT reader",
-    "C10": "C10_history is a theorem about the layer-B model: in any history of API calls, the medium after every prefix of the block-write sequence of every call (read off the device log; writes atomic and ordered) satisfies the crash invariant crash_inv (tree over the raw disk, unique names, clean tails, dot entries, chains sound and pairwise disjoint, sub-directories with initialised clusters; residue = lost chains and one stale size), whatever the free clusters held; step_crash proved for all 26 operations and outcomes. The extracted sound decider crash_inv_fast and the independent python checker both run on the implementation's crashed media. Not covered by a theorem: that the mount call itself succeeds on the crashed medium (region theorem: MBR/boot sector unchanged)",
-    "C09": "C09_history is a theorem about the layer-B model: a file present on the medium (path, entry, bytes) is present unchanged between calls and on every crashed medium of every later call of any history until a call targets it (op_targets); step_keeps_flushed proved for all 26 operations; with the C02 flush theorem (a successful flush/close puts exactly the API's view on the medium) this is the property for the model. The python oracle replays every prefix of the implementation's write log and re-reads flushed files with an independent reader",
-    "C16": "C16_history (mirroring of every FAT copy, truthful-stays-truthful, unknown-stays-unknown, hint unknown or in range - after every call of every history of API calls) and C16_history_flush (the FAT32 information sector after a flush/close of a dirty file holds exactly the in-memory record: the number of free FAT entries when the count was truthful, untouched when unknown) are theorems about the layer-B model; the mount code establishes the hint range (C16_mount_hint_in_range, D40 repaired); no call panics or fails for want of space while a free entry exists whatever record was found at mount (C03_history, PrAlloc/PrCount). Recorded finding: stale-hint-kept",
+    "C11": "C11x_history_model (the same statement over the extended alphabet FsExt.xop, lockstep_xstep for every extended operation; with the observation C11x_drop_swallows_fault: a File dropped while its flush hits the fault answers nothing - impl Drop discards the DeviceError, the handle is gone, the unflushed bytes are lost - documented behaviour of Drop, stated as a theorem) and C11_history_model is a theorem about the layer-B model: in any history run with ONE device fault armed at any device-call index, the calls before the one that hits it are unaffected, and that call returns Err (never Ok / fabricated / Panic / OutOfFuel), keeps lock and handle tables (CloseFile consumes its handle), leaves a crash-sound medium with unique names and every non-targeted file intact, and - for calls that never write - a state of the invariant so that the retry is a fault-free call; every handle can be closed afterwards. Proved per operation (step_fault, 26 operations) from lockstep_step (the armed run agrees with the fault-free run up to the armed device call). Several faults per history and arbitrary calls after a fault are covered at run time only: this check injects a fault at every device-call index of every script and random multi-fault sequences, and judges the implementation with the python oracle (error reported, not wedged, retry answers, no duplicate names, bystanders intact)",
+    "C01": "C01x_history_model (the same over the extended alphabet FsExt.xop: iterate_dir_lfn, wrapper drops, change_dir, File::length/offset/is_eof; xspec_run on top of spec_step) and C01_history_model is a theorem about the layer-B model: for any history of API calls (all 26 operations interleaved, any number of files, every outcome) an executable byte-array spec predicts every read/length/offset/eof/seek/flush/close result and ends with the API's view of every file, position by position (writes splice, truncation empties, append starts at the end, one key per write = isolation); step_content proved per operation; D23 (clip at 4 GiB - 1) is encoded in the spec as the crate behaves and recorded as a finding. The run-time oracle replays the byte-array model on the implementation's results",
+    "C02": "C02x_history_model / C02x_flushed_stays_model / C02x_untouched_history_model (extended alphabet; the flush may be XDropFile), C02_drop_is_close (impl Drop for File = a close whose result is discarded: same state, same medium, the flush relation of CloseFile) and C02_history_model / C02_flushed_stays_model / C02_untouched_history_model are theorems about the layer-B model: what a fresh mount of the raw medium shows (disk_view, a function of the raw disk) at the slot of a flushed/closed file is exactly the API's view at the flush - name, attribute, creation time, modification time = rounded clock of the last write, bytes - until a later call modifies that file; untouched files and untouched raw directory slots are unchanged through any history. Recorded findings: D24 (zero creation-date fields re-encoded) and D29 (0xE5 names). The run-time oracle re-reads the implementation's medium with an independent FAT reader",
+    "C10": "C10x_history / C10x_region_history (the same over the extended alphabet FsExt.xop: the crashed media of an extended call are those of its base call, xcrash_disks_base) and C10_history is a theorem about the layer-B model: in any history of API calls, the medium after every prefix of the block-write sequence of every call (read off the device log; writes atomic and ordered) satisfies the crash invariant crash_inv (tree over the raw disk, unique names, clean tails, dot entries, chains sound and pairwise disjoint, sub-directories with initialised clusters; residue = lost chains and one stale size), whatever the free clusters held; step_crash proved for all 26 operations and outcomes. The extracted sound decider crash_inv_fast and the independent python checker both run on the implementation's crashed media. Not covered by a theorem: that the mount call itself succeeds on the crashed medium (region theorem: MBR/boot sector unchanged)",
+    "C09": "C09x_history (the same over the extended alphabet FsExt.xop; a drop of a handle on the file counts as targeting it) and C09_history is a theorem about the layer-B model: a file present on the medium (path, entry, bytes) is present unchanged between calls and on every crashed medium of every later call of any history until a call targets it (op_targets); step_keeps_flushed proved for all 26 operations; with the C02 flush theorem (a successful flush/close puts exactly the API's view on the medium) this is the property for the model. The python oracle replays every prefix of the implementation's write log and re-reads flushed files with an independent reader",
+    "C16": "C16x_history / C16x_history_flush (the same over the extended alphabet FsExt.xop: a dropped dirty File stores the record like a closed one) and C16_history (mirroring of every FAT copy, truthful-stays-truthful, unknown-stays-unknown, hint unknown or in range - after every call of every history of API calls) and C16_history_flush (the FAT32 information sector after a flush/close of a dirty file holds exactly the in-memory record: the number of free FAT entries when the count was truthful, untouched when unknown) are theorems about the layer-B model; the mount code establishes the hint range (C16_mount_hint_in_range, D40 repaired); no call panics or fails for want of space while a free entry exists whatever record was found at mount (C03_history, PrAlloc/PrCount). Recorded finding: stale-hint-kept",
     "C03": "C03x_history (the same for the extended alphabet FsExt.xop: + iterate_dir_lfn, Drop of the File / Directory wrappers, Directory::change_dir - whose unwrap is proved unreachable -, the expect()ing File::length/offset/is_eof under the guard that the wrapper's handle is open) and C03_history / C03_after_every_call / C03_sound_after_history are theorems about the layer-B model for every history of API calls (all 26 operations, every outcome incl. refusals, DiskFull and NotEnoughSpace half-way failures): the global invariant fs_inv - directory tree over the raw disk, unique names, clean tail after the end marker, dot entries, chains in range / acyclic / end-marked / never through free-reserved-bad entries / pairwise disjoint / long enough for the size, pending chains of open files - holds after every call. Scope stated in the theorems: one mounted volume, no device faults, names outside the recorded class D29, fewer than 2^32 handle generations. The tie to the crate is the trace-exact correspondence; the extracted decider fs_inv_b (sound: fs_inv_b_sound) and the independent python checker both run on the implementation's images",
     "C04": "C04_history is a theorem about the layer-B model for every history of API calls: the complete device-write list lies in the regions of the volume (FAT copies, FAT16 root region, data area, FAT32 information sector; C04_regions_not_outside: never MBR, boot sector, other partition, past the last cluster); C04_mount_layout / C04_open_volume_layout derive the region map from the checks of the mount code; per-call byte frames (slot, FAT entry, high nibble, info-sector fields, data range) are the C04_*_frame theorems. Recorded finding: the partition size is not compared with the BPB total (D38)",
     "C05": "C05_history (after any history of API calls with no file left open, in-use clusters = clusters on the chains of the live tree), C05_used_is_tree_and_pending (with open files: plus their pending chains), C05_delete_frees, C05_capacity (exactly free_entries allocations succeed, then NotEnoughSpace with nothing changed), C05_fill_free_refill for every number of cycles, and mgr_write_spec (Ok / DiskFull with exactly the stored prefix readable / NotEnoughSpace) are theorems about the layer-B model for all inputs",
@@ -523,6 +523,7 @@ def per_op_image_checks(run, env, sc, want):
         wrote = bool(tr.writes.get(k))
         if "c04" in want and wrote:
             out += c04_writes(tr, k, g, prev, dev, sc)
+            out += c04_frames(tr, k, g, prev)
         if wrote or k == 0:
             if "fsck" in want:
                 probs, tree, owned = fatck.fsck(dev, g, read_data=False)
@@ -570,6 +571,75 @@ def c04_writes(tr, k, g, prev, dev, sc):
             out.append("op %d (%s): write to reserved block %d" % (k, op, idx))
         elif idx >= g.data_end:
             out.append("op %d (%s): write to block %d past the last cluster (data area ends at %d)" % (k, op, idx, g.data_end - 1))
+    return out
+
+def c04_frames(tr, k, g, prev):
+    """the second sentence of C04 on the implementation's write log: within the data area (and the FAT16 root region) a
+    call only changes bytes of the file range it was asked to write, of clusters that were free before the call, or of
+    ONE directory slot per directory block; all other bytes of every rewritten block are preserved.  Ownership is read
+    off the medium as it was BEFORE the call by the independent checker."""
+    out = []
+    op = tr.ops[k]
+    opt = " ".join(op[:3])
+    ws = tr.writes.get(k, [])
+    if not any(g.root_start <= idx < g.data_end for idx, _ in ws):
+        return out
+    probs, tree, owned = fatck.fsck(prev, g, read_data=False)
+    if probs:
+        return out          # an unsound medium is C03's business; ownership would be guesswork
+    ent = {}
+    def walk(t, path):
+        for e in t:
+            if e.is_lfn or e.is_label or e.name[:2] in (b". ", b".."):
+                continue
+            pth = path + "/" + e.name.decode("latin-1").strip()
+            ent[pth] = e
+            if e.children is not None:
+                walk(e.children, pth)
+    walk(tree, "")
+    # the byte range of the file this call writes (file-relative), from the reported offsets
+    wr = None
+    if op[0] in ("write", "iowrite") and k > 0:
+        before = tr.st[k - 1].get(op[1]); after = tr.st[k].get(op[1])
+        if before and after and before[0] != "err" and after[0] != "err":
+            wr = (int(before[1]), int(after[1]))
+            if op[0] == "write" and tr.binds[k] is None and int(before[1]) > int(after[1]):
+                wr = None
+    cur = {}
+    for idx, data in ws:
+        old = cur.get(idx, prev.get(idx, fatck.ZERO))
+        cur[idx] = data
+        if not (g.root_start <= idx < g.data_end) or data == old:
+            continue
+        diff = [o for o in range(512) if data[o] != old[o]]
+        if idx < g.data_start:
+            owner, isdir, e = "/", True, None       # FAT16 root region
+        else:
+            c = 2 + (idx - g.data_start) // g.spc
+            owner = owned.get(c)
+            if owner is None:
+                continue                             # free (or lost / pending) before the call: the call may fill it
+            e = ent.get(owner)
+            isdir = owner == "/" or (e is not None and e.is_dir)
+            if e is None and owner != "/":
+                continue
+        if isdir:
+            slots = sorted({o // 32 for o in diff})
+            if len(slots) > 1:
+                out.append("op %d (%s): block %d of directory %s: %d slots changed in one write (slots %s); a call owns one slot" % (k, opt, idx, owner, len(slots), slots[:6]))
+        else:
+            if wr is None:
+                out.append("op %d (%s): block %d belongs to file %s, which this call was not asked to write; %d bytes changed (first at offset %d)" % (k, opt, idx, owner, len(diff), diff[0]))
+                continue
+            c = 2 + (idx - g.data_start) // g.spc
+            pos = (e.chain.index(c) * g.spc + (idx - g.data_start) % g.spc) * 512 if c in e.chain else None
+            if pos is None:
+                continue
+            lo, hi = wr[0] - pos, wr[1] - pos
+            outside = [o for o in diff if not (lo <= o < hi)]
+            if outside:
+                out.append("op %d (%s): block %d of file %s (file offset %d): %d bytes changed outside the written range [%d, %d) - first at file offset %d"
+                           % (k, opt, idx, owner, pos, len(outside), wr[0], wr[1], pos + outside[0]))
     return out
 
 def check_C03(run, replay=None):
@@ -701,6 +771,26 @@ def c04_known(sc):
         return lambda p: "partition-size" if p.endswith(": partition-size") else None
     return None
 
+def retry_scripts(env, rng, count):
+    """directed: an append / overwrite / flush that hits ONE device fault at each of its first device calls and is then
+    retried, on files whose last block is partly filled"""
+    hx = fsgen.hx
+    for j in range(count):
+        geo = fsgen.geometry(rng, None, ["f16_min", "f32_min", "f16_spc2", "f16_spc8"])
+        img, meta = fsgen.build_image(rng, geo, populate=1, ensure_big=True)
+        path, dev = env.new_image(img, "retry%d" % j)
+        meta = dict(meta); meta["dev0"] = dev
+        names = [p_[1:] for p_ in sorted(meta["files"]) if p_.count("/") == 1 and meta["files"][p_].size > 0 and not (meta["files"][p_].attr & 1)][:2]
+        if not names:
+            continue
+        ops = ["openvol %d -> $v" % meta["slot"], "openroot $v -> $r"]
+        for i, nm in enumerate(names):
+            ops += ["open $r %s RWA -> $a%d" % (hx(nm), i), "write $a%d 10 %d" % (i, i), "write $a%d 10 %d" % (i, i), "write $a%d 600 %d" % (i, i + 1),
+                    "seekstart $a%d 3" % i, "write $a%d 5 9" % i, "write $a%d 5 9" % i, "flush $a%d" % i, "flush $a%d" % i, "close $a%d" % i]
+        ops += ["iter $r"]
+        # the device-call index of the fault sweeps over the first calls after the prelude (mount + open: ~6-12 calls)
+        env.add_script("retry%03d" % j, path, (1, 4, 4), ops, 5000, (6 + j % 14,), meta)
+
 def check_C04(run, replay=None):
     env = F.Env(run, "C04.v")
     if not env.ok:
@@ -714,6 +804,12 @@ def check_C04(run, replay=None):
     F.std_scenarios(env, rng, n // 3, prof, nops=(20, 50), img_kw=dict(free_left=1), want=["f16_min", "f16_slack", "f16_spc8", "f32_min", "f16_exact", "f32_exact"])
     F.std_scenarios(env, rng, n // 3, prof, nops=(20, 50))
     corpus(env, rng, {"fsinfo-location", "mount-hardening"})
+    # a transient device fault followed by a retry of the same call: what the retried call writes must still be confined
+    # to its own bytes (a cache that claims a block it does not hold would rewrite foreign bytes)
+    F.std_scenarios(env, rng, max(n // 3, 16), fsgen.profile(weights=dict(write=16, open=10, close=5, flush=4, seek=4, read=3, delete=2, mkdir=2, bad=0, remount=0, io=0)),
+                    nops=(16, 36), want=["f16_min", "f16_spc2", "f32_min", "f16_spc8"], per_image=2,
+                    faults_fn=lambda r, ops: sorted({5 + r.below(60), 20 + r.below(120)}))
+    retry_scripts(env, rng, 8 if run.tier == "quick" else 40)
     env.run_all(writes=True)
     bad = 0
     for sc in env.scripts:
